@@ -5,4 +5,9 @@ static inline unsigned int CBloomFilter_Hash(const CBloomFilter* self, unsigned 
 #define LOOP_INSERT
 #define LOOP_CONTAINS
 #define GHOST_WIT(i) (g_wit = (i))
+typedef struct { unsigned char* buf; size_t nbits; } BitWriter; typedef struct { const unsigned char* buf; size_t pos; } BitReader;     /* MSB-first bit strings, as BitStreamWriter / Reader lay them out */
+static inline void BitWriter_Write(BitWriter* w, uint64_t data, int nbits) { for (int k = nbits - 1; k >= 0; k--) { if ((data >> k) & 1) w->buf[w->nbits >> 3] |= (unsigned char)(0x80 >> (w->nbits & 7)); w->nbits++; } }
+static inline uint64_t BitReader_Read(BitReader* r, int nbits) { uint64_t v = 0; for (int k = 0; k < nbits; k++) { v = (v << 1) | ((r->buf[r->pos >> 3] >> (7 - (r->pos & 7))) & 1); r->pos++; } return v; }
+#define LOOP_UNARY_W
+#define LOOP_UNARY_R
 #include "slices.h"
